@@ -245,7 +245,7 @@ pub fn spec_strategy() -> impl Strategy<Value = ElfSpec> {
             0u8..3,
         ),
         (
-            proptest::option::weighted(0.7, proptest::collection::vec(prop_oneof![(0x21u8..0x7f).prop_map(|c| c as char), Just('\u{e9}')], 0..24).prop_map(|v| v.into_iter().collect::<String>())),
+            proptest::option::weighted(0.7, proptest::collection::vec(prop_oneof![10 => (0x21u8..0x7f).prop_map(|c| c as char), 1 => Just('\u{e9}'), 1 => Just('\u{1f600}')], 0..24).prop_map(|v| v.into_iter().collect::<String>())),
             proptest::bool::weighted(0.7),
             proptest::bool::weighted(0.7),
             0u8..6,
@@ -260,7 +260,7 @@ pub fn spec_strategy() -> impl Strategy<Value = ElfSpec> {
 }
 
 pub fn corrupt_val_strategy() -> impl Strategy<Value = CorruptVal> {
-    prop_oneof![4 => (0u8..12).prop_map(CorruptVal::Boundary), 1 => (0u8..10).prop_map(CorruptVal::LenMinus), 1 => (0u8..10).prop_map(CorruptVal::LenPlus), 1 => any::<u64>().prop_map(CorruptVal::Raw)]
+    prop_oneof![4 => (0u8..12).prop_map(CorruptVal::Boundary), 1 => (0u8..10).prop_map(CorruptVal::LenMinus), 1 => (0u8..10).prop_map(CorruptVal::LenPlus), 1 => any::<u64>().prop_map(CorruptVal::Raw), 1 => (-2i8..3).prop_map(CorruptVal::NameEdge)]
 }
 
 pub fn run(ctx: &mut LaneCtx) {
